@@ -16,25 +16,70 @@ Inductive hint :=
 | HGood (expired : bool) (sub azp : string)
 | HBad.
 
-(* what the driver knows about a presented hint: not a verifiable token at all (wrong key,
-   tampered, garbage), or a token really signed by this provider's key for issuer [iss].
+(* what the driver knows about a presented hint: not a verifiable token at all (signed by
+   nobody's key, tampered, garbage), or a token really signed with the key named [key] (its kid)
+   and the algorithm [alg] for issuer [iss].
    The verifier is built per request from the issuer of the CURRENT request
    (Provider.IDTokenHintVerifier(ctx) -> IssuerFromContext): a token of another issuer -
    including another host of the same provider - is rejected by CheckIssuer. *)
 Inductive tok :=
 | TNone
-| TSigned (key : string) (iss : string) (expired : bool) (sub azp : string)
+| TSigned (key alg : string) (iss : string) (expired : bool) (sub azp : string)
 | TBad.
 
-(* published = the key ids Storage.KeySet returns when THIS request is served (the key set is
-   read for every verification: a key that was withdrawn since an earlier request no longer
-   counts, exactly like a key that was never published) *)
-Definition classify (current_issuer : string) (published : list string) (t : tok) : hint :=
+(* an oidc.KeySet handed to a verifier: it trusts the keys the storage publishes while the
+   request is served (ks_own: what OpenIDKeySet{storage} does, the key set is read for every
+   verification) and / or a fixed list of key ids of its own (a partner's key, a pinned key).
+   ks_storage is the provider's default for both verifiers. *)
+Record keyset := { ks_own : bool; ks_fixed : list string }.
+Definition ks_storage : keyset := {| ks_own := true; ks_fixed := [] |}.
+
+Definition ks_trusts (k : keyset) (published : list string) (key : string) : bool :=
+  (ks_own k && string_in key published) || string_in key (ks_fixed k).
+
+(* jose.ParseSigned(token, algs): no configured list = RS256, ES256, PS256 *)
+Definition alg_allowed (algs : list string) (alg : string) : bool :=
+  match algs with
+  | [] => string_in alg ["RS256"; "ES256"; "PS256"]
+  | _ => string_in alg algs
+  end.
+
+(* the provider options that concern token verification, in the order NewProvider applies them *)
+Inductive popt :=
+| OptATKeys (k : keyset)          (* op.WithAccessTokenKeySet *)
+| OptHintKeys (k : keyset)        (* op.WithIDTokenHintKeySet *)
+| OptATAlgs (a : list string)     (* op.WithAccessTokenVerifierOpts(WithSupportedAccessTokenSigningAlgorithms a...) *)
+| OptHintAlgs (a : list string).  (* op.WithIDTokenHintVerifierOpts(WithSupportedIDTokenHintSigningAlgorithms a...) *)
+
+(* the four Provider fields the options write (accessTokenKeySet, idTokenHinKeySet,
+   accessTokenVerifierOpts, idTokenHintVerifierOpts) *)
+Record vconf := { v_at_keys : keyset; v_hint_keys : keyset; v_at_algs : list string; v_hint_algs : list string }.
+
+Definition vconf0 : vconf :=
+  {| v_at_keys := ks_storage; v_hint_keys := ks_storage; v_at_algs := []; v_hint_algs := [] |}.
+
+Definition apply_opt (v : vconf) (o : popt) : vconf :=
+  match o with
+  | OptATKeys k => {| v_at_keys := k; v_hint_keys := v_hint_keys v; v_at_algs := v_at_algs v; v_hint_algs := v_hint_algs v |}
+  | OptHintKeys k => {| v_at_keys := v_at_keys v; v_hint_keys := k; v_at_algs := v_at_algs v; v_hint_algs := v_hint_algs v |}
+  | OptATAlgs a => {| v_at_keys := v_at_keys v; v_hint_keys := v_hint_keys v; v_at_algs := a; v_hint_algs := v_hint_algs v |}
+  | OptHintAlgs a => {| v_at_keys := v_at_keys v; v_hint_keys := v_hint_keys v; v_at_algs := v_at_algs v; v_hint_algs := a |}
+  end.
+
+(* NewProvider: defaults, then `for _, optFunc := range opOpts` *)
+Definition configure (opts : list popt) : vconf := fold_left apply_opt opts vconf0.
+
+(* VerifyIDTokenHint with the key set [keys] and the supported algorithms [algs] of the hint
+   verifier. published = the key ids Storage.KeySet returns when THIS request is served (a key
+   that was withdrawn since an earlier request no longer counts, exactly like a key that was
+   never published) *)
+Definition classify (keys : keyset) (algs : list string) (current_issuer : string) (published : list string) (t : tok) : hint :=
   match t with
   | TNone => HNone
   | TBad => HBad
-  | TSigned key iss ex sub azp =>
-      if String.eqb iss current_issuer && string_in key published then HGood ex sub azp else HBad
+  | TSigned key alg iss ex sub azp =>
+      if String.eqb iss current_issuer && alg_allowed algs alg && ks_trusts keys published key
+      then HGood ex sub azp else HBad
   end.
 
 Inductive pres := PMatch | PNoMatch | PBad.      (* path.Match *)
